@@ -191,6 +191,17 @@ func checkC05(c *Ctx) error {
 					dang.Services[who].Args = append([]cfg.Val{cfg.Str("@" + missing)}, dang.Services[who].Args...)
 					jobs = append(jobs, job{&dang, fmt.Sprintf("n%d/e%d/s%d/dangling", n, e, s)})
 				}
+				// a service that is only a todo placeholder keeps the scope it is declared with (as a dependency it is a
+				// declared-contextual service); as a dependant it has no dependencies at all
+				if (e+s)%7 == 0 && n >= 2 {
+					td := conf.Clone()
+					who := n - 1
+					if (e/7+s)%3 == 0 {
+						who = (e + s) % n
+					}
+					td.Services[who].Todo = cfg.P(true)
+					jobs = append(jobs, job{&td, fmt.Sprintf("n%d/e%d/s%d/todo%d", n, e, s, who)})
+				}
 			}
 		}
 	}
